@@ -131,6 +131,8 @@ func loadBases(repo string, thorough bool) []baseDoc {
 	return out
 }
 
+var lineZero = regexp.MustCompile(`at [^\s:]*:0(:0)?:`)
+
 var atPos = regexp.MustCompile(`at [^\s:]*:(\d+):(\d+)`)
 
 func cleanFrame(m string) string {
@@ -444,8 +446,15 @@ func relaxed(ix *posIndex, orig *docmodel.Node, mutated string, res result) stri
 	}
 	// (d) a sibling keyword of the same object: constraints relate keywords of one schema / parameter
 	// (default vs type vs nullable, minimum vs maximum), either of them may be blamed
+	// (members of a sequence are not keywords of one object: blaming another element is wrong)
+	parentIsMap := false
+	for _, c := range ss {
+		if c.Path == mutated {
+			parentIsMap = c.Parent.Kind == 'm'
+		}
+	}
 	for _, cand := range ix.all[res.Pos[0]] {
-		if parent != "" && strings.Count(parent, "/") >= 2 && strings.HasPrefix(cand, parent+"/") {
+		if parentIsMap && parent != "" && strings.Count(parent, "/") >= 2 && strings.HasPrefix(cand, parent+"/") {
 			return "sibling-keyword-of-the-same-object"
 		}
 	}
@@ -587,6 +596,11 @@ func runJob(j job, bases []baseDoc, muts []docmodel.Mutation) result {
 		if r2.Err != res.Err || fmt.Sprint(r2.Pos) != fmt.Sprint(res.Pos) {
 			res.Unstable = true
 		}
+	}
+	if res.Outcome == "error" && len(res.Pos) == 0 && lineZero.MatchString(res.Err) {
+		// the diagnostic names the file and line 0: a position was looked up and lost
+		res.Relation = "outside-the-document"
+		res.At = "line 0"
 	}
 	if res.Outcome == "error" && len(res.Pos) > 0 {
 		ix := &posIndex{starts: map[[2]int]string{}, keys: map[[2]int]string{}, all: map[[2]int][]string{}, lines: strings.Count(text, "\n") + 1}
